@@ -1,0 +1,84 @@
+//go:build verif
+
+// Contracts for the deductive verifier in /verif (govc). Comments only.
+
+package ruleset
+
+// ---- facts about RE2 syntax the proof relies on (trusted; audited against the real regexp package) ----
+// (A1) a non-capturing group matches what its body matches;
+// (A2) joining such groups with '|' matches the union.
+// No fact is given for joining unwrapped expressions, because none holds
+// (inline flags, anchors and alternations would leak).
+//@ ghost fn wrappedJoin(string) bool
+//@ axiom forall s string, x string {langOf("(?:" + s + ")", x)} :: langOf("(?:" + s + ")", x) == langOf(s, x)
+//@ axiom forall s string {"(?:" + s + ")"} :: wrappedJoin("(?:" + s + ")")
+//@ axiom forall a string, s string, x string {langOf(a + "|" + "(?:" + s + ")", x)} :: wrappedJoin(a) ==> langOf(a + "|" + "(?:" + s + ")", x) == (langOf(a, x) || langOf(s, x))
+//@ axiom forall a string, s string {a + "|" + "(?:" + s + ")"} :: wrappedJoin(a) ==> wrappedJoin(a + "|" + "(?:" + s + ")")
+
+//@ globalinv ErrNoIncludeRules != nil
+
+// anyMatch(rules, n, x): one of the first n rules, taken on its own, matches x.
+//@ pred anyMatch(rules []*regexp.Regexp, n int, x string) = exists j int :: 0 <= j && j < n && reMatch(rules[j], x)
+
+// build (L17.2): the combined expression matches exactly the union of the rules.
+//@ func NewRegexpMatcher$1
+//@ property C17
+//@ requires forall j int :: 0 <= j && j < len(rules) ==> rules[j] != nil
+//@ modifies sbStr
+//@ ensures len(rules) == 0 ==> result == nil
+//@ ensures len(rules) > 0 ==> result != nil
+//@ ensures len(rules) > 0 ==> forall x string, j int {reMatch(rules[j], x)} :: 0 <= j && j < len(rules) && reMatch(rules[j], x) ==> reMatch(result, x)
+//@ ensures len(rules) > 0 ==> forall x string {reMatch(result, x)} :: reMatch(result, x) ==> anyMatch(rules, len(rules), x)
+//@ loop 0:
+//@   invariant i == 0 ==> sbStr(regex) == ""
+//@   invariant i > 0 ==> wrappedJoin(sbStr(regex)) && len(sbStr(regex)) > 0
+//@   invariant i > 0 ==> forall x string, j int {reMatch(rules[j], x)} :: 0 <= j && j < i && reMatch(rules[j], x) ==> langOf(sbStr(regex), x)
+//@   invariant i > 0 ==> forall x string {langOf(sbStr(regex), x)} :: langOf(sbStr(regex), x) ==> anyMatch(rules, i, x)
+//@   invariant forall j int :: 0 <= j && j < len(rules) ==> rules[j] != nil
+
+// NewRegexpMatcher: include/exclude expressions are the unions of their rule lists.
+//@ func NewRegexpMatcher
+//@ property C17
+//@ requires forall j int :: 0 <= j && j < len(include) ==> include[j] != nil
+//@ requires forall j int :: 0 <= j && j < len(exclude) ==> exclude[j] != nil
+//@ modifies sbStr
+//@ ensures len(include) == 0 ==> result0 == nil && result1 != nil
+//@ ensures len(include) > 0 ==> result1 == nil && result0 != nil && !result0.inverse && result0.include != nil
+//@ ensures len(include) > 0 ==> forall x string, j int {reMatch(include[j], x)} :: 0 <= j && j < len(include) && reMatch(include[j], x) ==> reMatch(result0.include, x)
+//@ ensures len(include) > 0 ==> forall x string {reMatch(result0.include, x)} :: reMatch(result0.include, x) ==> anyMatch(include, len(include), x)
+//@ ensures len(include) > 0 && len(exclude) == 0 ==> result0.exclude == nil
+//@ ensures len(include) > 0 && len(exclude) > 0 ==> result0.exclude != nil
+//@ ensures len(include) > 0 && len(exclude) > 0 ==> forall x string, j int {reMatch(exclude[j], x)} :: 0 <= j && j < len(exclude) && reMatch(exclude[j], x) ==> reMatch(result0.exclude, x)
+//@ ensures len(include) > 0 && len(exclude) > 0 ==> forall x string {reMatch(result0.exclude, x)} :: reMatch(result0.exclude, x) ==> anyMatch(exclude, len(exclude), x)
+
+// match (L17.3): matched by the include expression and not by the exclude expression.
+//@ func (*RegexpMatcher).match
+//@ property C17
+//@ requires r != nil
+//@ pure
+//@ ensures result == (!(r.exclude != nil && reMatch(r.exclude, s)) && r.include != nil && reMatch(r.include, s))
+
+//@ func (*RegexpMatcher).Match
+//@ property C17
+//@ requires r != nil
+//@ pure
+//@ ensures result == (r.inverse != (!(r.exclude != nil && reMatch(r.exclude, s)) && r.include != nil && reMatch(r.include, s)))
+
+// Inverse: same rules, negated answer.
+//@ func (*RegexpMatcher).Inverse
+//@ property C17
+//@ requires r != nil
+//@ ensures result != nil && fresh(result) && result.include == r.include && result.exclude == r.exclude && result.inverse == !r.inverse
+
+// NewRegexpMatcherFromList: items are routed by their flag (the partition facts
+// "every item is in exactly one list" need witness terms the solvers do not
+// find on their own and are not claimed; see DESIGN.md).
+//@ func NewRegexpMatcherFromList
+//@ property C17
+//@ requires forall j int :: 0 <= j && j < len(l) ==> l[j].Regexp != nil
+//@ modifies sbStr, elems(*regexp.Regexp)
+//@ ensures result1 == nil ==> result0 != nil && !result0.inverse && result0.include != nil
+//@ loop 0:
+//@   invariant forall j int :: 0 <= j && j < len(include) ==> include[j] != nil
+//@   invariant forall j int :: 0 <= j && j < len(exclude) ==> exclude[j] != nil
+//@   invariant forall j int :: 0 <= j && j < len(l) ==> l[j].Regexp != nil
